@@ -165,7 +165,7 @@ fn out1<T: Num>(v: &T) -> Vec<u64> {
     v.put(&mut o);
     o
 }
-fn u64s(v: &Value) -> Vec<u64> {
+pub fn u64s(v: &Value) -> Vec<u64> {
     v.as_array().expect("array").iter().map(|x| x.as_u64().expect("u64")).collect()
 }
 pub fn parse_segs<T: Num>(v: &Value) -> Vec<Segment<T>> {
